@@ -7,7 +7,7 @@ PROFILE = dict(weights=[6, 1, 1, 0.5, 0.7, 0.1, 0], queries=["lookup", "lookup1"
                arity=[0, 1, 1, 2, 2, 2, 3])
 # the most specific registration *for the specifications as they are now*: histories with declaration / hierarchy changes
 WORLD_PROFILE = dict(weights=[3, 0.8, 0.3, 0.1, 2.5, 2.5, 2, 0.6, 0.2], nregs=(1, 3), extra=1, provq=0, arity=[1, 1, 2, 2, 3],
-                     scen_hit=0.12, scen_rbases=0.04, scen_rebuild=0.03)
+                     scen_hit=0.12, scen_rbases=0.04, scen_rebuild=0.03, scen_addspec=0.1)
 
 
 def check(tier):
